@@ -653,4 +653,153 @@ def runFresh (g : Grid) : List Event → List Generated
   | .refresh g' :: es => runFresh g' es
   | .generate r :: es => generateAll g r :: runFresh g es
 
+/-! ## The graph as the Python code sees it
+
+Targets of the machine translation `Frequenz/Extracted/GraphLoops.lean` (`tools/extractors/graph_loops.py`): a
+`Component` of the Python code is a `Comp` — a node of the tree TOGETHER WITH ITS PLACE (its ancestors, nearest
+first, and the root), so that `graph.successors(c.component_id)` / `graph.predecessors(c.component_id)` are
+structural (`Comp.succs` / `Comp.preds`) and need no lookup by id.  Components are compared by id (`in`, dict keys,
+`issubset`): ids are the node keys of the networkx graph.  A battery is reached from every inverter that lists its
+id; `predecessors(<battery id>)` searches the tree for those inverters. -/
+
+inductive CKind where
+  | grid
+  | node (n : Node)
+  | bat (id : Nat)
+deriving Repr, Inhabited
+
+structure Comp where
+  kind : CKind
+  /-- ancestors, nearest first (meters; for a battery the inverter it was reached from comes first) -/
+  anc : List Node
+  root : Grid
+deriving Repr
+
+instance : Inhabited Grid := ⟨⟨0, []⟩⟩
+instance : Inhabited Comp := ⟨⟨.grid, [], default⟩⟩
+
+def Grid.comp (g : Grid) : Comp := ⟨.grid, [], g⟩
+
+def Comp.id (c : Comp) : Nat :=
+  match c.kind with
+  | .grid => c.root.id
+  | .node n => n.id
+  | .bat b => b
+
+def Comp.cat (c : Comp) : Cat :=
+  match c.kind with
+  | .grid => .grid
+  | .node n => n.cat
+  | .bat _ => .battery
+
+def Comp.typ (c : Comp) : InvType :=
+  match c.kind with
+  | .node n => n.ityp
+  | _ => .none
+
+/-- `graph.successors(c.component_id)` -/
+def Comp.succs (c : Comp) : List Comp :=
+  match c.kind with
+  | .grid => c.root.succ.map (fun n => ⟨.node n, [], c.root⟩)
+  | .node (.meter id cs) => cs.map (fun k => ⟨.node k, .meter id cs :: c.anc, c.root⟩)
+  | .node (.batInv id bs) => bs.map (fun b => ⟨.bat b, .batInv id bs :: c.anc, c.root⟩)
+  | _ => []
+
+mutual
+/-- every battery inverter (as a `Comp`) below `n` that lists battery `b` -/
+def Node.invsOf (b : Nat) (root : Grid) (anc : List Node) : Node → List Comp
+  | .meter id cs => invsOfL b root (.meter id cs :: anc) cs
+  | .batInv id bs => if bs.contains b then [⟨.node (.batInv id bs), anc, root⟩] else []
+  | .pvInv _ => []
+  | .ev _ => []
+  | .chp _ => []
+def invsOfL (b : Nat) (root : Grid) (anc : List Node) : List Node → List Comp
+  | [] => []
+  | n :: ns => n.invsOf b root anc ++ invsOfL b root anc ns
+end
+
+/-- `graph.predecessors(<id of a battery>)`: the inverters that list it -/
+def Grid.predsOfBat (g : Grid) (b : Nat) : List Comp := invsOfL b g [] g.succ
+
+/-- `graph.predecessors(c.component_id)` -/
+def Comp.preds (c : Comp) : List Comp :=
+  match c.kind with
+  | .grid => []
+  | .node _ =>
+    match c.anc with
+    | [] => [c.root.comp]
+    | p :: rest => [⟨.node p, rest, c.root⟩]
+  | .bat b => c.root.predsOfBat b
+
+mutual
+def Node.comps (root : Grid) (anc : List Node) : Node → List Comp
+  | .meter id cs => ⟨.node (.meter id cs), anc, root⟩ :: compsL root (.meter id cs :: anc) cs
+  | .batInv id bs => ⟨.node (.batInv id bs), anc, root⟩ :: bs.map (fun b => ⟨.bat b, .batInv id bs :: anc, root⟩)
+  | .pvInv id => [⟨.node (.pvInv id), anc, root⟩]
+  | .ev id => [⟨.node (.ev id), anc, root⟩]
+  | .chp id => [⟨.node (.chp id), anc, root⟩]
+def compsL (root : Grid) (anc : List Node) : List Node → List Comp
+  | [] => []
+  | n :: ns => n.comps root anc ++ compsL root anc ns
+end
+
+/-- `graph.components()` (a battery on several inverters is listed once per inverter; only ever filtered by
+category GRID / CHP or by the ids of non-battery components) -/
+def Grid.comps (g : Grid) : List Comp := g.comp :: compsL g [] g.succ
+
+/-- The node of a `.node` component (a childless meter otherwise; never used there). -/
+def Comp.node (c : Comp) : Node :=
+  match c.kind with
+  | .node n => n
+  | _ => .meter c.id []
+
+def Comp.isNode (c : Comp) : Bool :=
+  match c.kind with
+  | .node _ => true
+  | _ => false
+
+/-- What the model's predicates look at: the category of the predecessor and its number of successors. -/
+def Comp.pos (c : Comp) : Pos :=
+  match c.anc with
+  | [] => topPos c.root
+  | p :: _ => ⟨p.cat, match p with | .meter _ cs => cs.length | .batInv _ bs => bs.length | _ => 0⟩
+
+/-- the model's `parent` argument of `dfs` -/
+def Comp.parentInfo (c : Comp) : Option (Node × Pos) :=
+  match c.anc with
+  | [] => none
+  | p :: rest => some (p, (⟨.node p, rest, c.root⟩ : Comp).pos)
+
+def Comp.found (c : Comp) : Found := ⟨c.node, c.pos, c.parentInfo⟩
+
+/-- `next(iter(s))`, `s.pop()`, `(x,) = s` under a `len(s) == 1` guard -/
+def firstComp (l : List Comp) : Comp := l.headD default
+
+/-- `l.pop()` of a non-empty list: its last element -/
+def lastComp (l : List Comp) : Comp := l.getLastD default
+
+/-- membership / subset of sets of components: by id -/
+def memIds (c : Comp) (l : List Comp) : Bool := l.any (fun x => x.id == c.id)
+def subsetIds (a b : List Comp) : Bool := a.all (fun x => memIds x b)
+
+/-- `a | b`, `a.update(b)`, `a.add(x)` on sets of components -/
+def unionIds (a b : List Comp) : List Comp := a ++ b.filter (fun x => !memIds x a)
+
+/-- enough recursion depth for `dfs` from anywhere in the tree -/
+def Grid.fuel (g : Grid) : Nat := 2 * (allIdsL g.succ).length + 2
+
+/-! ### `dict[Component, set[Component]]` in insertion order -/
+
+abbrev CDict := List (Comp × List Comp)
+
+def CDict.has (d : CDict) (k : Comp) : Bool := d.any (fun e => e.1.id == k.id)
+
+/-- `d[k] = v` -/
+def CDict.set (d : CDict) (k : Comp) (v : List Comp) : CDict :=
+  if d.has k then d.map (fun e => if e.1.id == k.id then (e.1, v) else e) else d ++ [(k, v)]
+
+/-- `d.setdefault(k, set()).add(x)` -/
+def CDict.addTo (d : CDict) (k : Comp) (x : Comp) : CDict :=
+  if d.has k then d.map (fun e => if e.1.id == k.id then (e.1, e.2 ++ [x]) else e) else d ++ [(k, [x])]
+
 end Graph
